@@ -1,6 +1,133 @@
-/- Line-protocol driver for engine `cache` — not built yet (stub). -/
+/- Line-protocol driver for engine `cache` (C12): cases `seq` (bare PageCache), `pgr` (pager: cache + disk),
+   `cfg` (configuration clamping / header narrowing) and `grid` (SQL workload under a grid of configurations). -/
+import AxVerif.Model.Bytes
+import AxVerif.Model.Cache
+import AxVerif.Model.Config
+namespace AxVerif.Cache
+open AxVerif
+
+def parseDefects (flags : List String) : Defects :=
+  { clearZeroesCapacity := flags.contains "clearZeroesCapacity",
+    cursorForwardOnly := flags.contains "cursorForwardOnly",
+    openIgnoresCacheSize := flags.contains "openIgnoresCacheSize",
+    cacheSizeWraps := flags.contains "cacheSizeWraps" }
+
+def nat? (s : String) : Option Nat := if s.length ≤ 19 then s.toNat? else none
+
+def parseCOp : List String → Option COp
+  | ["ins", p, v, d] => match nat? p, nat? v, d with
+    | some p, some v, "0" => some (.ins p v false)
+    | some p, some v, "1" => some (.ins p v true)
+    | _, _, _ => none
+  | ["get", p] => (nat? p).map .get
+  | ["pin", p] => (nat? p).map .pin
+  | ["unpin", k] => (nat? k).map .unpin
+  | ["hread", k] => (nat? k).map .hread
+  | ["hwrite", k, v] => match nat? k, nat? v with
+    | some k, some v => some (.hwrite k v)
+    | _, _ => none
+  | ["hdirty", k] => (nat? k).map .hdirty
+  | ["evict"] => some .evict
+  | ["rm", p] => (nat? p).map .rm
+  | ["clear"] => some .clear
+  | ["drain"] => some .drain
+  | ["setcap", n] => (nat? n).map .setcap
+  | ["stat"] => some .stat
+  | _ => none
+
+def parsePOp : List String → Option POp
+  | ["alloc"] => some .alloc
+  | ["read", p] => (nat? p).map .read
+  | ["write", p, v] => match nat? p, nat? v with
+    | some p, some v => some (.write p v)
+    | _, _ => none
+  | ["pin", p] => (nat? p).map .pin
+  | ["unpin", k] => (nat? k).map .unpin
+  | ["hread", k] => (nat? k).map .hread
+  | ["hwrite", k, v] => match nat? k, nat? v with
+    | some k, some v => some (.hwrite k v)
+    | _, _ => none
+  | ["flush"] => some .flush
+  | ["reopen"] => some .reopen
+  | ["disk", p] => match nat? p with
+    | some p => if p = 0 then none else some (.disk p)
+    | none => none
+  | _ => none
+
+def allSome {α β : Type} (f : α → Option β) : List α → Option (List β)
+  | [] => some []
+  | x :: xs => match f x, allSome f xs with
+    | some y, some ys => some (y :: ys)
+    | _, _ => none
+
+/-- the operations of a sequence: `op ; op ; …` given as words -/
+def splitOps (ws : List String) : List (List String) :=
+  let rec go : List String → List String → List (List String)
+    | [], cur => if cur.isEmpty then [] else [cur.reverse]
+    | w :: rest, cur => if w = ";" then cur.reverse :: go rest [] else go rest (w :: cur)
+  go ws []
+
+/-- statements of a `grid` workload: only their well-formedness matters to the model (every configuration must
+    answer them identically, which the harness checks and reports as `same`) -/
+def gstmtOk : List String → Bool
+  | ["ins", a, b, c] => (nat? a).isSome && (nat? b).isSome && (nat? c).isSome
+  | ["bulk", a, b, c, d] =>
+    (nat? a).isSome && (nat? c).isSome && (nat? d).isSome &&
+    (match nat? b with | some n => decide (0 < n ∧ n ≤ 2000) | none => false)
+  | ["upd", a, b] => (nat? a).isSome && (nat? b).isSome
+  | ["updb", a, b] => (nat? a).isSome && (nat? b).isSome
+  | ["updr", a, b, c] => (nat? a).isSome && (nat? b).isSome && (nat? c).isSome
+  | ["del", a] => (nat? a).isSome
+  | ["delr", a, b] => (nat? a).isSome && (nat? b).isSome
+  | ["sel", "all"] => true
+  | ["sel", "cnt"] => true
+  | ["sel", "id", a] => (nat? a).isSome
+  | ["sel", "k", a, b] => (nat? a).isSome && (nat? b).isSome
+  | ["uins", a, b, c] => (nat? a).isSome && (nat? b).isSome && (nat? c).isSome
+  | ["udel", a] => (nat? a).isSome
+  | ["usel"] => true
+  | ["ckpt"] => true
+  | _ => false
+
+def flagOk (s : String) : Bool := s = "0" || s = "1"
+
+def pageSizeOk (n : Nat) : Bool := n = 4096 || n = 8192 || n = 16384 || n = 32768 || n = 65536
+
+def step (D : Defects) (line : String) : String :=
+  match words line with
+  | "seq" :: cap :: "|" :: rest =>
+    match nat? cap, allSome parseCOp (splitOps rest) with
+    | some cap, some ops => " ; ".intercalate ((Mem.crun D (Mem.init cap) ops).2)
+    | _, _ => "bad-op"
+  | "pgr" :: cap :: ps :: "|" :: rest =>
+    match nat? cap, nat? ps, allSome parsePOp (splitOps rest) with
+    | some cap, some ps, some ops =>
+      if pageSizeOk ps && cap ≤ 200000 then
+        " ; ".intercalate (((Pager.init cap).run D ops).2.map Out.show)
+      else "bad-op"
+    | _, _, _ => "bad-op"
+  | ["cfg", a, b, c, d, e] =>
+    match nat? a, nat? b, nat? c, nat? d, nat? e with
+    | some a, some b, some c, some d, some e =>
+      let n := Config.Config.new a b c d e
+      let hdr := if b ≤ 1000000 then " hdr=" ++ Config.showHeader (Config.toHeader D n) else ""
+      s!"new={Config.showConfig n} bld={Config.showConfig (Config.Config.builder a b c d e)}{hdr}"
+    | _, _, _, _, _ => "bad-op"
+  | "grid" :: seed :: ncfg :: small :: "|" :: rest =>
+    match nat? seed, nat? ncfg with
+    | some _, some n =>
+      if decide (2 ≤ n ∧ n ≤ 64) && flagOk small && (splitOps rest).all gstmtOk then "same" else "bad-op"
+    | _, _ => "bad-op"
+  | "gridx" :: page :: cache :: pool :: mk :: sib :: ckpt :: "|" :: rest =>
+    match nat? page, nat? cache, nat? pool, nat? mk, nat? sib with
+    | some page, some cache, some pool, some mk, some sib =>
+      if pageSizeOk page && decide (0 < cache ∧ cache ≤ 100000 ∧ 0 < pool ∧ pool ≤ 16 ∧ 2 ≤ mk ∧ mk ≤ 16 ∧ 0 < sib ∧ sib ≤ 8)
+        && flagOk ckpt && (splitOps rest).all gstmtOk then "same" else "bad-op"
+    | _, _, _, _, _ => "bad-op"
+  | _ => "bad-op"
+
+end AxVerif.Cache
+
 namespace AxVerif.Drivers
-
-def cache (_flags : List String) (_line : String) : String := "unimplemented"
-
+def cache (flags : List String) (line : String) : String := AxVerif.Cache.step (AxVerif.Cache.parseDefects flags) line
 end AxVerif.Drivers
